@@ -294,7 +294,7 @@ def run(tier, seed):
         for side in "ABS":
             for ws in core.chunks(range(inst.q), max(1, min(16, inst.q // 4))):
                 tasks.append((name, side, ws))
-    tasks.sort(key=lambda t: -T.get(t[0]).q * len(t[2]) * (10 if T.get(t[0]).kind == "ed" else 1))
+    tasks.sort(key=lambda t: -T.hint(t[0]).q * len(t[2]) * (10 if T.hint(t[0]).kind == "ed" else 1))
     core.pmerge(_table_task, tasks, acc)
     core.pmerge(_first_byte_task, [(n, s) for n in ["T11", "T23", "T29", "T31", "T43", "T59", "T509", "T263"] for s in "ABS"], acc)
     core.pmerge(_entropy_tree_task, [(n, s) for n in ["T1543", "T263", "T23", "T29"] for s in ("A", "S")], acc)
